@@ -450,12 +450,25 @@ def c08_judge(world: macrolib.World, out: dict) -> list[dict]:
         if lib is not None and m_.group(1) in lib.macros:
             name = m_.group(1)
             seen_ = set()
-            while lib.macros[name].call_first and lib.macros[name].callees and name not in seen_:
+            while (lib.macros[name].call_first and lib.macros[name].callees and name not in seen_
+                   and not lib.macros[lib.macros[name].callees[0]].label_only):
                 seen_.add(name)
                 name = lib.macros[name].callees[0]
             if name != ent[1]:
                 problems.append({"clause": "call-site-names-the-calling-file",
                                  "detail": f"op {off_s} belongs to macro {ent[1]}, the call at {rp}:{line}:{col} starts an expansion of {name}"})
+    # ... and every expansion that emits an op has such a call site on its first op (which ops these are is known from the
+    # structure of the library; nested expansions beginning with the same op share one)
+    lib = getattr(world, "lib", None)
+    if lib is not None and getattr(world, "judge_starts", True):
+        from collections import Counter as _C
+
+        want = _C(macrolib.expansion_starts(lib))
+        got = _C((macro, n) for off, macro, variant, n in tags_in(dg) if (macro_map.get(str(off)) or [None] * 5)[4])
+        missing = want - got
+        if missing:
+            problems.append({"clause": "expansion-start-carries-the-call-site",
+                             "detail": f"first ops of expansions without called_in: {sorted(missing.items())[:4]}"})
     # return addresses (necessary conditions that need no model of the expansion): within a routine, a maximal run of
     # consecutive ops that come from macros is one or several complete expansions in a row; the largest return address in
     # the run belongs to an outermost expansion that ends with the run, so it lies after the run's last op and not after
